@@ -7,7 +7,10 @@ set -u
 NAME=$1; shift
 SRC=$(cd "$(dirname "$0")/.." && pwd)
 V=/tmp/vmx_$NAME
-mkdir -p $V && rsync -a --delete --exclude '.cache/target*' --exclude '.git' $SRC/ $V/ || exit 2
+mkdir -p $V && rsync -a --delete --exclude '.cache/target*' $SRC/ $V/ || exit 2
+# builders may be in the middle of an edit: the copy runs the COMMITTED state of every tracked file (compiled files of
+# unchanged sources are reused, untracked work in progress is not part of a _CoqProject at HEAD)
+git -C $V checkout -q -- . || exit 2
 OUT=$SRC/seeded/MATRIX_$NAME.txt
 : > $OUT
 for id in "$@"; do
